@@ -226,6 +226,7 @@ func (r *Router) ListActiveServices() ServiceDescriptionMap {
 	r.withReadLock(func() error {
 		for name, service := range r.services.All() {
 			active, _, _ := service.loadBalancers()
+			tlsEnabled, _ := service.tlsOptions()
 			if active != nil {
 				host := strings.Join(service.options.Hosts, ",")
 				if host == "" {
@@ -239,7 +240,7 @@ func (r *Router) ListActiveServices() ServiceDescriptionMap {
 					Host:   host,
 					Path:   path,
 					Target: target,
-					TLS:    service.options.TLSEnabled,
+					TLS:    tlsEnabled,
 					State:  service.pauseController.GetState().String(),
 				}
 			}
